@@ -14,7 +14,7 @@ ALL = '012345678'   # nop, throw A/B/C, call K0..K3 (callees containing their ow
 # filter overwrites the record on the current tree (genuine defect, proposed/C07-catch-scan-overwrites-record.md):
 # these instances report it with labels ending in '/filter-entry-cmp-handles-an-exception-of-its-own'.
 # Set to True once proposed/C07-catch-scan-overwrites-record.patch (or an equivalent repair) is in /repo.
-CMPTHROW_ENABLED = False
+CMPTHROW_ENABLED = True
 CMPTHROW = {
   'quick': [X('d1-cmpthrow', 'base', 'objs=cmpthrow', 'depth=1', 'alpha=' + ALL, 'ppalpha=' + ALL, 'chain=1'),
             X('d2-cmpthrow', 'base', 'objs=cmpthrow', 'depth=2', 'alpha=0124', 'ppalpha=01'),
